@@ -251,7 +251,8 @@ def pairing(ctx):
         for ref in ('final', 'initial'):
             kcalls = []
 
-            def kernel(p0, p1, box=None, pbc=None, _k=kcalls):
+            def kernel(pos_0, pos_1, box, pbc, _k=kcalls):       # the parameter names of atomman.core.dvect
+                p0, p1 = pos_0, pos_1
                 _k.append((np.asarray(p0, dtype=object), np.asarray(p1, dtype=object), box, pbc))
                 return symarray('sep', (max(np.shape(np.atleast_2d(p0))[0], np.shape(np.atleast_2d(p1))[0]), 3), real=True)
             mk2 = lambda k: SymObj(syscls, {'natoms': sp.Integer(natoms), 'atoms': SymObj(None, {'pos': symarray('q%d' % k, (natoms, 3), real=True)}, 'atoms%d' % k), 'box': 'box%d' % k, 'pbc': PB[k]}, 'system_%d' % k)
